@@ -128,7 +128,7 @@ Theorem stale_invariant :
 Proof. intros k progs s c sl v R Hin. exact (proj1 (reachable_stale k progs s R) c sl v Hin). Qed.
 Print Assumptions stale_invariant.
 
-From Thunder Require Import Reactive.ProofsOut Reactive.ProofsClosed Reactive.ProofsShape Reactive.ProofsProgress.
+From Thunder Require Import Reactive.ProofsOut Reactive.ProofsClosed Reactive.ProofsShape Reactive.ProofsJoin Reactive.ProofsProgress.
 
 (** The same, about what was actually published: [r_out] is the value the compute function had returned when
     the publish step ran (the harness compares it with the real return value at every publish event). *)
@@ -144,17 +144,27 @@ Proof.
 Qed.
 Print Assumptions published_output_is_current.
 
-(** PROGRESS (no deadlock).  In every reachable state that is not quiescent some task label is enabled.  Compute
-    functions are finite scripts, so "user compute terminates" is built into the model; [progs_ok k progs] says
-    that the programs only name slots that exist.  Proof: closedness (ProofsClosed: node ids in frames name
-    existing nodes, addOut's two nodes differ, handlers are registered on fresh nodes), the shape of stacks
-    (ProofsShape: whatever sits above a frame of Rerunner.run's critical section is a frame of the compute
-    function), and the Mutex invariant: the only blocking labels wait for r.mu, and the task that holds r.mu
-    has an enabled top frame. *)
+(** PROGRESS (no deadlock).  In every reachable state that is not quiescent some task label is enabled, for
+    compute functions with any nesting of reactive.Cache calls and of goroutines started inside them
+    ([OPar]: concurrent AddDependency / Cache on one computation, the per-key lock contended).  Compute
+    functions are finite scripts, so "user compute terminates" is built into the model; [progs_ok k progs]:
+    the programs only name slots that exist.  Proof: closedness (ProofsClosed), the shape of stacks
+    (ProofsShape: above a frame of Rerunner.run's critical section sit only frames of the compute function),
+    joins (ProofsJoin: a join counts the branch goroutines still running; a branch goroutine only waits for
+    younger joins; the error return is always possible below a compute frame) and the Mutex invariant.  The
+    labels that wait are r.mu.Lock (its holder can step or waits for a join) and a join (one of its branches
+    can step or waits for a younger join).
+
+    Two things the statement does NOT say.  (1) For a task about to call reactive.Cache the enabled label
+    may be "the compute function does not call Cache this time": that a call whose key is held by another
+    goroutine eventually gets the lock is not proved (it needs the keys to be nested in a fixed order, a
+    usage rule).  (2) [no_self_hit s]: a cache lookup does not return the very computation that performs it;
+    true of the Go program (a computation is stored after its function returned), not proved of the model,
+    checked on every state of every replayed trace (component code 7). *)
 Theorem progress :
-  forall k progs s, progs_ok k progs -> reachable (init k progs) s -> ~ quiescent s ->
+  forall k progs s, progs_ok k progs -> reachable (init k progs) s -> no_self_hit s -> ~ quiescent s ->
   exists tid arg s', step s (LTask tid arg) = Some s'.
-Proof. intros k progs s Pk R Nq. apply (progress_lemma k progs s Pk R). exact Nq. Qed.
+Proof. intros k progs s Pk R Ns Nq. apply (progress_lemma k progs s Pk R Ns). exact Nq. Qed.
 Print Assumptions progress.
 
 (** whenever r.mu is held some task stands inside the critical section of Rerunner.run *)
